@@ -236,7 +236,8 @@ fn merge_chunks(lines: &mut Vec<String>) {
             }
         };
         if let Some(h) = head {
-            let mut j = i + 1;
+            let j = i + 1;
+            // chunks of one reply are consecutive lines
             while j < lines.len() {
                 let same_head = lines[j].starts_with(&format!("{} ", h)) || lines[j] == h;
                 let mut items: Vec<String> = lines[i][h.len()..].split(' ').filter(|x| !x.is_empty()).map(|x| x.to_string()).collect();
@@ -248,7 +249,7 @@ fn merge_chunks(lines: &mut Vec<String>) {
                     items.sort();
                     lines[i] = format!("{} {}", h, items.join(" "));
                 } else {
-                    j += 1;
+                    break;
                 }
             }
         }
